@@ -70,6 +70,11 @@ def _spec(d: D, ids: list[int], depth: int, tier: str) -> dict:
         s["sleep"] = d.weighted([(0, 60), (1, 25), (2, 15)])
     if route in ("ctx", "module"):
         s["pass_exc"] = d.bool()
+    shape = d.weighted([("function", 70), ("object", 18), ("partial", 12)])
+    if shape != "function":
+        s["shape"] = shape  # a callable object (no __qualname__) / a functools.partial
+    if route == "resource" and d.pct(40):
+        s["ntypes"] = d.int(2, 3)  # the resource is published under several types
     if d.pct(30):
         s["raises"] = d.pick(EXCS)
         s["raise_when"] = d.pick(["before", "after"])
@@ -115,6 +120,18 @@ def strategy(prop: str, tier: str) -> st.SearchStrategy:
 # ------------------------------------------------------------------------------------
 # interpreter
 # ------------------------------------------------------------------------------------
+
+
+class _RT0:
+    pass
+
+
+class _RT1:
+    pass
+
+
+class _RT2:
+    pass
 
 
 class _Awaitable:
@@ -239,22 +256,46 @@ class Interp:
             return lambda: _Awaitable(body_async(None, False))
         raise HarnessError(kind)
 
+    def shaped(self, spec: dict, cb: Any) -> Any:
+        """Same behaviour, different kind of callable."""
+        import functools
+        import inspect
+
+        shape = spec.get("shape")
+        if shape == "partial":
+            return functools.partial(cb)
+        if shape == "object":
+            if inspect.iscoroutinefunction(cb):
+                class AsyncCallable:
+                    async def __call__(self, *a: Any) -> Any:
+                        return await cb(*a)
+                return AsyncCallable()
+
+            class Callable_:
+                def __call__(self, *a: Any) -> Any:
+                    return cb(*a)
+            return Callable_()
+        return cb
+
     def register(self, spec: dict, during_teardown: bool = False) -> Any:
         """Register one callback through its route. Returns an awaitable for ctxtd routes."""
         from asphalt.core import add_resource, add_teardown_callback
 
+        make_callback = lambda sp, takes: self.shaped(sp, self.make_callback(sp, takes))  # noqa: E731
+
         route = spec["route"]
         ctx = self.ctx
         if route == "ctx":
-            ctx.add_teardown_callback(self.make_callback(spec, spec.get("pass_exc", False)), spec.get("pass_exc", False))
+            ctx.add_teardown_callback(make_callback(spec, spec.get("pass_exc", False)), spec.get("pass_exc", False))
         elif route == "module":
-            add_teardown_callback(self.make_callback(spec, spec.get("pass_exc", False)), spec.get("pass_exc", False))
+            add_teardown_callback(make_callback(spec, spec.get("pass_exc", False)), spec.get("pass_exc", False))
         elif route == "resource":
             obj = object()
+            types = [_RT0, _RT1, _RT2][: spec["ntypes"]] if spec.get("ntypes") else ()
             if during_teardown or spec["id"] % 2:
-                ctx.add_resource(obj, f"r{spec['id']}", teardown_callback=self.make_callback(spec, False))
+                ctx.add_resource(obj, f"r{spec['id']}", types, teardown_callback=make_callback(spec, False))
             else:
-                add_resource(obj, f"r{spec['id']}", teardown_callback=self.make_callback(spec, False))
+                add_resource(obj, f"r{spec['id']}", types, teardown_callback=make_callback(spec, False))
         else:
             raise HarnessError(route)
         if not during_teardown:
